@@ -27,7 +27,7 @@ def tie(ctx):
 def gen(rng):
     r = rng.random()
     if r < 0.65:
-        s = netgen.gen_hydraulic(rng, features={"p_outage": 0.3, "p_pipe_valve": 0.0})
+        s = netgen.gen_hydraulic(rng, features={"p_outage": 0.3, "p_pipe_valve": 0.0, "p_vary_t": 0.0})
     elif r < 0.85:
         s = netgen.gen_heat_tree(rng)
     else:
